@@ -55,6 +55,7 @@ pub(crate) fn extract_function(
             &items,
             ns,
             &summary.id_to_ty,
+            &summary.id_to_bindings,
             offset,
             *expr_id,
             &expr,
@@ -63,7 +64,15 @@ pub(crate) fn extract_function(
     }
 
     if let Some(exprs) = find_block_selection(&items, offset, end_offset) {
-        return extract_exprs(src, &items, ns, &summary.id_to_ty, &exprs, name);
+        return extract_exprs(
+            src,
+            &items,
+            ns,
+            &summary.id_to_ty,
+            &summary.id_to_bindings,
+            &exprs,
+            name,
+        );
     }
 
     Err("No expression found at this selected position.".to_owned())
@@ -74,12 +83,13 @@ fn extract_single_expr(
     items: &[ToplevelItem],
     ns: Rc<RefCell<NamespaceInfo>>,
     id_to_ty: &FxHashMap<SyntaxId, Type>,
+    id_to_bindings: &FxHashMap<SyntaxId, Vec<(SymbolName, Type)>>,
     offset: usize,
     expr_id: SyntaxId,
     expr: &Expression,
     name: &str,
 ) -> Result<String, String> {
-    let params = locals_outside_exprs(ns, id_to_ty, std::slice::from_ref(expr));
+    let params = locals_outside_exprs(ns, id_to_ty, id_to_bindings, std::slice::from_ref(expr));
 
     let mut result = String::new();
 
@@ -128,6 +138,7 @@ fn extract_exprs(
     items: &[ToplevelItem],
     ns: Rc<RefCell<NamespaceInfo>>,
     id_to_ty: &FxHashMap<SyntaxId, Type>,
+    id_to_bindings: &FxHashMap<SyntaxId, Vec<(SymbolName, Type)>>,
     exprs: &[Rc<Expression>],
     name: &str,
 ) -> Result<String, String> {
@@ -138,7 +149,7 @@ fn extract_exprs(
     let body_end = last.position.end_offset;
 
     let exprs_owned: Vec<Expression> = exprs.iter().map(|e| (**e).clone()).collect();
-    let params = locals_outside_exprs(ns, id_to_ty, &exprs_owned);
+    let params = locals_outside_exprs(ns, id_to_ty, id_to_bindings, &exprs_owned);
 
     let return_ty = id_to_ty.get(&last.id);
 
@@ -210,11 +221,14 @@ fn extracted_fun_src(
 fn locals_outside_exprs(
     namespace: Rc<RefCell<NamespaceInfo>>,
     id_to_ty: &FxHashMap<SyntaxId, Type>,
+    id_to_bindings: &FxHashMap<SyntaxId, Vec<(SymbolName, Type)>>,
     exprs: &[Expression],
 ) -> Vec<(SymbolName, Option<Type>)> {
     let mut visitor = FreeVarsVisitor {
         namespace,
         id_to_ty: id_to_ty.clone(),
+        id_to_bindings: id_to_bindings.clone(),
+        local_sym_ids: FxHashSet::default(),
         local_bindings: vec![FxHashSet::default()],
         free_vars: vec![],
         free_vars_seen: FxHashSet::default(),
@@ -234,9 +248,24 @@ struct FreeVarsVisitor {
     /// A hash set of variables in `free_vars`, to avoid duplicates.
     free_vars_seen: FxHashSet<SymbolName>,
     id_to_ty: FxHashMap<SyntaxId, Type>,
+    id_to_bindings: FxHashMap<SyntaxId, Vec<(SymbolName, Type)>>,
+    /// Variable occurrences that refer to a local variable, even if
+    /// a toplevel definition has the same name.
+    local_sym_ids: FxHashSet<SyntaxId>,
 }
 
 impl Visitor for FreeVarsVisitor {
+    fn visit_expr(&mut self, expr: &Expression) {
+        if let ast::Expression_::Variable(symbol) = &expr.expr_ {
+            if let Some(bindings) = self.id_to_bindings.get(&expr.id) {
+                if bindings.iter().any(|(name, _)| *name == symbol.name) {
+                    self.local_sym_ids.insert(symbol.id);
+                }
+            }
+        }
+        self.visit_expr_(&expr.expr_);
+    }
+
     fn visit_block(&mut self, block: &Block) {
         // Variables bound in a block aren't visible after it, so a
         // later use of the same name refers to an outer variable.
@@ -248,7 +277,9 @@ impl Visitor for FreeVarsVisitor {
     }
 
     fn visit_expr_variable(&mut self, symbol: &ast::Symbol) {
-        if self.namespace.borrow().values.contains_key(&symbol.name) {
+        if !self.local_sym_ids.contains(&symbol.id)
+            && self.namespace.borrow().values.contains_key(&symbol.name)
+        {
             return;
         }
         if self.free_vars_seen.contains(&symbol.name) {
